@@ -358,6 +358,14 @@ fn run_beh(beh: &Value, args: &Args, notes: &mut Vec<String>) -> Result<(u64, us
                         Ok(_) => "ok".to_string(),
                         Err(e) => err_class(e),
                     };
+                    let missing_before = !st.a("tips").is_empty() || exp == "InitError";
+                    let _ = missing_before;
+                    if exp == "InitError" && got != "InitError" {
+                        return Err(f(si, "C10:first-command-not-init-accepted", format!("a graph was created from a first command that is not its init: {got}")));
+                    }
+                    if exp != "InitError" && got == "InitError" {
+                        return Err(f(si, "C10:init-refused", "the graph's own init command (first or repeated) was refused with InitError".into()));
+                    }
                     if got != exp {
                         // the outcome class of add_commands is checked through its consequences at
                         // commit; a mismatch here is spec/code drift unless a later predicate fails
@@ -400,6 +408,47 @@ fn run_beh(beh: &Value, args: &Args, notes: &mut Vec<String>) -> Result<(u64, us
                     }
                 }
                 poisoned.insert((r, t));
+                w.txns.insert((r, t), txn);
+            }
+            "bad" => {
+                // C10: malformed first contacts / foreign init commands must be refused with InitError
+                let t = st.u("t");
+                let shape = st.s("shape");
+                let existed = w.reps.get_mut(&r).unwrap().exists();
+                let before = if existed { w.reps.get_mut(&r).unwrap().view().ok() } else { None };
+                let foreign = {
+                    let mut b = ids::init_id();
+                    b[1] = 0x77;
+                    b
+                };
+                let cmd = match shape {
+                    "foreign_init" => ACmd::new(foreign, Priority::Init, Prior::None, b'n', "X"),
+                    "nopolicy_init" => {
+                        let mut c = ACmd::new(ids::init_id(), Priority::Init, Prior::None, b'n', "1");
+                        c.policy = None;
+                        c
+                    }
+                    _ => ACmd::new(ids::basic_id(251, 0), Priority::Basic(0), Prior::Single(w.uni[&1].address()), b'n', "X"),
+                };
+                let rep = w.reps.get_mut(&r).unwrap();
+                let mut txn = w.txns.remove(&(r, t)).unwrap_or_else(|| rep.txn());
+                let mut sink = ASink::new();
+                let res = rep.deliver(&mut txn, &mut sink, std::slice::from_ref(&cmd));
+                match &res {
+                    Err(ClientError::InitError) => {}
+                    Ok(_) => return Err(f(si, "C10:accepted", format!("malformed init delivery ({shape}, graph exists: {existed}) was accepted"))),
+                    Err(e) => return Err(f(si, "C10:wrong-error", format!("malformed init delivery ({shape}) produced {}", err_class(e)))),
+                }
+                let exists_now = rep.exists();
+                if exists_now != existed {
+                    return Err(f(si, "C10:graph-created", format!("a refused first command ({shape}) created the graph")));
+                }
+                if existed {
+                    let after = rep.view().ok();
+                    if after != before {
+                        return Err(f(si, "C10:state-changed", format!("a refused foreign init changed the committed state")));
+                    }
+                }
                 w.txns.insert((r, t), txn);
             }
             "flush" => {
